@@ -147,6 +147,9 @@ func (_this *RulesEventReceiver) OnBigInt(value *big.Int) {
 		_this.OnNull()
 		return
 	}
+	if value.BitLen() > maxBigIntBitCount {
+		panic(fmt.Errorf("integer is too big (%v bits, max %v)", value.BitLen(), maxBigIntBitCount))
+	}
 
 	_this.context.NotifyNewObject(true)
 	_this.context.CurrentEntry.Rule.OnKeyableObject(&_this.context, DataTypeInt, value)
@@ -255,6 +258,9 @@ func validateDecimalExponent(exponent int32) {
 		panic(fmt.Errorf("decimal float exponent %v is out of range", exponent))
 	}
 }
+
+// Integers are limited to the size the CBE decoder reads back (1024 bytes).
+const maxBigIntBitCount = 8192
 
 // Custom type codes are 32 bits wide (CBE cannot carry more).
 func (_this *RulesEventReceiver) validateCustomTypeCode(customType uint64) {
